@@ -191,7 +191,8 @@ Proof. intros A f a b v H. unfold updf. apply Nat.eqb_neq in H. rewrite H. refle
 Inductive ev1 :=
 | E1 (a : nat) (t w : Q)
 | S1 (a : nat) (t : Q)
-| D1 (a : nat) (t : Q) (n : Z).
+| D1 (a : nat) (t : Q) (n : Z)
+| X1 (a : nat) (t : Q).   (* the operation ended without append (timeout / error / cancellation) *)
 
 (* ghost-instrumented state:
      g_T   all bytes ever appended           g_C   credit folded away by resets
@@ -242,6 +243,16 @@ Definition gstep (g : gst) (e : ev1) : option gst :=
                          (updf (g_hi g) a (g_T g + n)%Z) (updf (g_last g) a n))
           else None
       | _ => None
+      end
+  | X1 a t =>
+      match g_stat g a with
+      | Idle => None
+      | _ =>
+          if Qle_bool (g_clock g) t
+          then Some (mkG (g_th g) (updf (g_stat g) a Idle) t
+                         (g_T g) (g_C g) (g_r g) (g_t0 g) (g_G g)
+                         (g_snap g) (g_hi g) (g_last g))
+          else None
       end
   end.
 
@@ -478,12 +489,42 @@ Proof.
     + exists a. unfold updf. rewrite Nat.eqb_refl. split; [intros ts0; discriminate|lia].
 Qed.
 
+(* an aborted operation changes no byte count: only the actor's status and the clock *)
+Lemma Inv_X1 : forall g a t g', Inv g -> gstep g (X1 a t) = Some g' -> Inv g'.
+Proof.
+  intros g a t g' I H. cbn [gstep] in H.
+  assert (H' : g_stat g a <> Idle /\ Qle_bool (g_clock g) t = true /\
+               g' = mkG (g_th g) (updf (g_stat g) a Idle) t
+                        (g_T g) (g_C g) (g_r g) (g_t0 g) (g_G g)
+                        (g_snap g) (g_hi g) (g_last g)).
+  { destruct (g_stat g a); try discriminate;
+      (destruct (Qle_bool (g_clock g) t); [|discriminate]); inversion H;
+      (split; [discriminate|split; reflexivity]). }
+  clear H. destruct H' as (Hst & Hck & ->). apply Qle_bool_iff in Hck.
+  destruct I as [Il Ir Is Ir0 IG Io Isn Ih Ip Ist Ie Igc Ic].
+  constructor; cbn [g_th g_stat g_clock g_T g_C g_r g_t0 g_G g_snap g_hi g_last];
+    try assumption.
+  - destruct (start (g_th g)) as [s|], (g_t0 g) as [z|]; try assumption.
+    destruct Io as (A & B & C & D & E). repeat split; try assumption. lra.
+  - intros b Hb. unfold updf in *. destruct (Nat.eqb b a) eqn:Eb; [congruence|].
+    apply Ip. exact Hb.
+  - intros b ts Hb. unfold updf in *. destruct (Nat.eqb b a) eqn:Eb; [discriminate|].
+    destruct (Ist b ts Hb) as [A B]. split; [exact A|lra].
+  - intros b w0 Hb. unfold updf in *. destruct (Nat.eqb b a) eqn:Eb; [discriminate|].
+    apply Ie. exact Hb.
+  - destruct Igc as [A|[z [A B]]]; [left; exact A|right]. exists z. split; [exact A|].
+    assert (L * (g_clock g - z) <= L * (t - z)) by (apply mul_le_mono; [exact HL|lra]). lra.
+  - intros x Hx. destruct (Ic x Hx) as [b [Hb1 Hb2]]. exists b. split; [|exact Hb2].
+    unfold updf. destruct (Nat.eqb b a); [|exact Hb1]. intros ts. discriminate.
+Qed.
+
 Theorem Inv_step : forall g e g', Inv g -> gstep g e = Some g' -> Inv g'.
 Proof.
-  intros g [a t w|a t|a t n] g' I H.
+  intros g [a t w|a t|a t n|a t] g' I H.
   - eapply Inv_E1; eassumption.
   - eapply Inv_S1; eassumption.
   - eapply Inv_D1; eassumption.
+  - eapply Inv_X1; eassumption.
 Qed.
 
 Theorem Inv_run : forall tr g g', Inv g -> grun g tr = Some g' -> Inv g'.
@@ -672,7 +713,7 @@ Proof.
 Qed.
 
 Definition actor_of_ev1 (e : ev1) : nat :=
-  match e with E1 a _ _ => a | S1 a _ => a | D1 a _ _ => a end.
+  match e with E1 a _ _ => a | S1 a _ => a | D1 a _ _ => a | X1 a _ => a end.
 
 Lemma last_untouched : forall tr g g' k,
   grun g tr = Some g' -> Forall (fun e => (actor_of_ev1 e < k)%nat) tr ->
@@ -683,12 +724,14 @@ Proof.
   - destruct (gstep g e) as [g1|] eqn:E; [|discriminate].
     inversion Hall as [|? ? He Hall']; subst.
     rewrite (IH g1 g' k Hr Hall' a Ha).
-    destruct e as [b t w|b t|b t n]; cbn [gstep actor_of_ev1] in *;
+    destruct e as [b t w|b t|b t n|b t]; cbn [gstep actor_of_ev1] in *;
       destruct (g_stat g b); try discriminate.
     + destruct (_ && _); [|discriminate]. inversion E. reflexivity.
     + destruct (_ && _); [|discriminate]. inversion E. reflexivity.
     + destruct (_ && _); [|discriminate]. inversion E. cbn [g_last].
       apply updf_other. lia.
+    + destruct (Qle_bool _ _); [|discriminate]. inversion E. reflexivity.
+    + destruct (Qle_bool _ _); [|discriminate]. inversion E. reflexivity.
 Qed.
 
 (* shared_bound: k actors share the throttle.  At any time t not before the last event, the bytes
@@ -982,12 +1025,38 @@ Proof.
       * apply Nat.eqb_neq in Eb. rewrite nth_error_upd_other; [|exact Eb]. apply Rs. exact Hb.
 Qed.
 
+Lemma sim_abort_in : forall actors k st g a t st',
+  rel actors k st g -> step actors st (Abort a t) = Some st' -> participates actors k a ->
+  exists g', gstep g (X1 a t) = Some g' /\ rel actors k st' g'.
+Proof.
+  intros actors k st g a t st' [Rl Rt Rc Rs] Hstep Hpart.
+  pose proof (Rs a Hpart) as Hsa.
+  cbn [step] in Hstep. rewrite Hsa in Hstep.
+  assert (H' : g_stat g a <> Idle /\ Qle_bool (s_clock st) t = true /\
+               st' = mkS (s_store st) (upd (s_stat st) a Idle) t).
+  { destruct (g_stat g a); try discriminate;
+      (destruct (Qle_bool (s_clock st) t); [|discriminate]); inversion Hstep;
+      (split; [discriminate|split; reflexivity]). }
+  clear Hstep. destruct H' as (Hst & Hck & ->). apply Qle_bool_iff in Hck.
+  assert (G1 : Qle_bool (g_clock g) t = true) by (apply Qle_bool_iff; lra).
+  eexists. split.
+  - cbn [gstep]. destruct (g_stat g a); [congruence| |]; rewrite G1; reflexivity.
+  - constructor; cbn [s_store s_stat s_clock g_th g_clock g_stat]; try assumption.
+    + apply Qle_refl.
+    + intros b Hb. unfold updf. destruct (Nat.eqb b a) eqn:Eb.
+      * apply Nat.eqb_eq in Eb. subst b. eapply nth_error_upd_same. exact Hsa.
+      * apply Nat.eqb_neq in Eb. rewrite nth_error_upd_other; [|exact Eb]. apply Rs. exact Hb.
+Qed.
+
 Definition ev_actor (e : event) : option nat :=
-  match e with Eval a _ => Some a | Start a _ => Some a | Done a _ _ => Some a | _ => None end.
+  match e with
+  | Eval a _ => Some a | Start a _ => Some a | Done a _ _ => Some a | Abort a _ => Some a
+  | _ => None
+  end.
 
 Lemma step_clock_mono : forall actors st e st', step actors st e = Some st' -> s_clock st <= s_clock st'.
 Proof.
-  intros actors st e st' H. destruct e as [a t|a t|a t n|k v|]; cbn [step] in H.
+  intros actors st e st' H. destruct e as [a t|a t|a t n|k v| |a t]; cbn [step] in H.
   - destruct (nth_error actors a); [|discriminate].
     destruct (nth_error (s_stat st) a) as [[| |]|]; try discriminate.
     destruct (Qle_bool (s_clock st) t) eqn:E; [|discriminate].
@@ -1003,6 +1072,9 @@ Proof.
     inversion H. cbn [s_clock]. apply Qle_bool_iff. exact E.
   - inversion H. apply Qle_refl.
   - destruct (forallb is_idle (s_stat st)); [|discriminate]. inversion H. apply Qle_refl.
+  - destruct (nth_error (s_stat st) a) as [[| |]|]; try discriminate;
+      (destruct (Qle_bool (s_clock st) t) eqn:E; [|discriminate]);
+      inversion H; cbn [s_clock]; apply Qle_bool_iff; exact E.
 Qed.
 
 (* an event of a non-participating actor, or an admin event on another object, is invisible *)
@@ -1019,7 +1091,7 @@ Proof.
             nth_error (upd (s_stat st) a v) b = Some (g_stat g b)).
   { intros a v Ha b Hb. rewrite nth_error_upd_other; [apply Rs; exact Hb|].
     intros E. subst b. exact (Hnp a Ha Hb). }
-  destruct e as [a t|a t|a t n|k' v|]; cbn [step] in Hstep.
+  destruct e as [a t|a t|a t n|k' v| |a t]; cbn [step] in Hstep.
   - destruct (nth_error actors a); [|discriminate].
     destruct (nth_error (s_stat st) a) as [[| |]|]; try discriminate.
     destruct (Qle_bool (s_clock st) t); [|discriminate].
@@ -1047,6 +1119,11 @@ Proof.
     + rewrite length_upd. exact Rl.
     + rewrite get_upd_other; [exact Rt|]. congruence.
   - destruct Hadm.
+  - destruct (nth_error (s_stat st) a) as [[| |]|]; try discriminate;
+      (destruct (Qle_bool (s_clock st) t); [|discriminate]);
+      inversion Hstep; subst st'; cbn [s_clock] in Hmono;
+      (constructor; cbn [s_store s_stat s_clock]; try assumption; [lra|]);
+      apply Hstat; reflexivity.
 Qed.
 
 Lemma sim_step : forall actors k st g e st',
@@ -1056,13 +1133,15 @@ Proof.
   intros actors k st g e st' Hw R Hstep Hadm.
   destruct (ev_actor e) as [a|] eqn:Ha.
   - destruct (participates_dec actors k a) as [Hp|Hnp].
-    + destruct e as [a' t|a' t|a' t n|k' v|]; cbn [ev_actor] in Ha; inversion Ha; subst a'.
+    + destruct e as [a' t|a' t|a' t n|k' v| |a' t]; cbn [ev_actor] in Ha; inversion Ha; subst a'.
       * destruct (sim_eval_in _ _ _ _ _ _ _ R Hstep Hp) as [w [g' [G R']]].
         exists [E1 a t w], g'. cbn [grun]. rewrite G. split; [reflexivity|exact R'].
       * destruct (sim_start_in _ _ _ _ _ _ _ R Hstep Hp) as [g' [G R']].
         exists [S1 a t], g'. cbn [grun]. rewrite G. split; [reflexivity|exact R'].
       * destruct (sim_done_in _ _ _ _ _ _ _ _ Hw R Hstep Hp) as [g' [G R']].
         exists [D1 a t n], g'. cbn [grun]. rewrite G. split; [reflexivity|exact R'].
+      * destruct (sim_abort_in _ _ _ _ _ _ _ R Hstep Hp) as [g' [G R']].
+        exists [X1 a t], g'. cbn [grun]. rewrite G. split; [reflexivity|exact R'].
     + exists [], g. split; [reflexivity|].
       eapply sim_other; try eassumption. intros b Hb. rewrite Ha in Hb. inversion Hb; subst.
       exact Hnp.
@@ -1191,7 +1270,7 @@ Proof.
     inversion Hall as [|? ? He Hall']; subst.
     destruct (IH st1 st' Hrun Hall') as [IH1 _].
     assert (H1 : get (s_store st1) k = get (s_store st) k).
-    { destruct e as [a t|a t|a t n|k' v|]; cbn [step touches] in *.
+    { destruct e as [a t|a t|a t n|k' v| |a t]; cbn [step touches] in *.
       - destruct (nth_error actors a); [|discriminate].
         destruct (nth_error (s_stat st) a) as [[| |]|]; try discriminate.
         destruct (Qle_bool _ _); [|discriminate]. inversion E. reflexivity.
@@ -1202,7 +1281,9 @@ Proof.
         destruct (_ && _); [|discriminate]. inversion E. cbn [s_store].
         apply stream_append_notin. intros Hin. apply He. exists ac. split; assumption.
       - inversion E. cbn [s_store]. apply get_upd_other. congruence.
-      - exfalso. apply He. exact Logic.I. }
+      - exfalso. apply He. exact Logic.I.
+      - destruct (nth_error (s_stat st) a) as [[| |]|]; try discriminate;
+          (destruct (Qle_bool _ _); [|discriminate]); inversion E; reflexivity. }
     split; [congruence|]. intros now. congruence.
 Qed.
 
@@ -1223,7 +1304,7 @@ Proof.
   - destruct (step actors st e) as [st1|] eqn:E; [|discriminate].
     inversion Hall as [|? ? He Hall']; subst.
     rewrite (IH st1 st' Hrun Hall').
-    destruct e as [a t|a t|a t n|k' v|]; cbn [step] in *.
+    destruct e as [a t|a t|a t n|k' v| |a t]; cbn [step] in *.
     + destruct (nth_error actors a); [|discriminate].
       destruct (nth_error (s_stat st) a) as [[| |]|]; try discriminate.
       destruct (Qle_bool _ _); [|discriminate]. inversion E. reflexivity.
@@ -1243,6 +1324,8 @@ Proof.
       intros Ek. subst k'. exact (He v eq_refl).
     + destruct (forallb is_idle (s_stat st)); [|discriminate]. inversion E. cbn [s_store].
       rewrite get_map_clone. reflexivity.
+    + destruct (nth_error (s_stat st) a) as [[| |]|]; try discriminate;
+        (destruct (Qle_bool _ _); [|discriminate]); inversion E; reflexivity.
 Qed.
 
 Lemma positive_limit_ext : forall th1 th2,
@@ -1268,4 +1351,68 @@ Proof.
   - eapply nth_error_upd_same. exact Hs.
   - intros k Hk. rewrite <- (Hoff k Hk). apply positive_limit_ext.
     apply (limit_preserved actors k tr _ _ E1 (Hadm k Hk)).
+Qed.
+
+(* ------------------------------------------------------------------ Part 7
+   operations on streams WITH read/write timeouts (the throttle wait precedes the timed region) *)
+
+Lemma timed_end_ge : forall tmo ts d, 0 <= d -> ts <= snd (timed_end tmo ts d).
+Proof.
+  intros tmo ts d Hd. unfold timed_end. destruct tmo as [T|]; [|cbn [snd]; lra].
+  destruct (Qlt_bool d T); cbn [snd]; [lra|].
+  pose proof (Q.le_max_l 0 T). lra.
+Qed.
+
+Theorem timed_end_spec : forall tmo ts d,
+  match tmo with
+  | None => timed_end tmo ts d = (true, ts + d)
+  | Some T => (d < T -> timed_end tmo ts d = (true, ts + d)) /\
+              (T <= d -> timed_end tmo ts d = (false, ts + Qmax 0 T))
+  end.
+Proof.
+  intros [T|] ts d; cbn [timed_end]; [|reflexivity]. split; intros H.
+  - apply Qlt_bool_true in H. rewrite H. reflexivity.
+  - apply Qlt_bool_false in H. rewrite H. reflexivity.
+Qed.
+
+(* whatever the timeout, the I/O of the operation starts exactly at the throttles' wake time *)
+Theorem op_start_ignores_timeout : forall store ac a tmo1 tmo2 now d n,
+  firstn 2 (op_events store ac a tmo1 now d n) = firstn 2 (op_events store ac a tmo2 now d n) /\
+  nth_error (op_events store ac a tmo1 now d n) 1 = Some (Start a (stream_wake store (ids_of ac) now)).
+Proof. intros. split; reflexivity. Qed.
+
+(* every such operation is a trace of the model (so all the bounds above apply to streams with
+   any timeout configuration); it leaves the actor idle; an operation that timed out accounts
+   nothing (the store is unchanged) *)
+Theorem op_accepted : forall actors st a ac tmo now d n,
+  nth_error actors a = Some ac -> nth_error (s_stat st) a = Some Idle ->
+  s_clock st <= now -> 0 <= d -> (0 <= n)%Z ->
+  exists st', run actors st (op_events (s_store st) ac a tmo now d n) = Some st' /\
+              nth_error (s_stat st') a = Some Idle /\
+              (fst (timed_end tmo (stream_wake (s_store st) (ids_of ac) now) d) = false ->
+               s_store st' = s_store st).
+Proof.
+  intros actors st a ac tmo now d n Hac Hst Hck Hd Hn.
+  pose proof (proj1 (stream_wake_is_max (s_store st) (ids_of ac) now)) as Hw.
+  unfold op_events. cbv zeta.
+  remember (stream_wake (s_store st) (ids_of ac) now) as w eqn:Ew.
+  pose proof (timed_end_ge tmo w d Hd) as Hte.
+  assert (Ha : (a < length (s_stat st))%nat) by (apply nth_error_Some; congruence).
+  cbn [run step]. rewrite Hac, Hst.
+  assert (C1 : Qle_bool (s_clock st) now = true) by (apply Qle_bool_iff; exact Hck).
+  rewrite C1. cbn [s_stat s_store s_clock]. rewrite <- Ew.
+  rewrite (nth_error_upd_same _ (s_stat st) a (Evaluated w) Idle Hst).
+  assert (C2 : Qle_bool now w && Qle_bool w w = true).
+  { apply andb_true_iff. split; apply Qle_bool_iff; [exact Hw|apply Qle_refl]. }
+  rewrite C2. cbn [s_stat s_store s_clock].
+  assert (Hst2 : nth_error (upd (upd (s_stat st) a (Evaluated w)) a (Started w)) a = Some (Started w)).
+  { eapply nth_error_upd_same. eapply nth_error_upd_same. exact Hst. }
+  assert (C3 : Qle_bool w (snd (timed_end tmo w d)) = true) by (apply Qle_bool_iff; exact Hte).
+  destruct (fst (timed_end tmo w d)) eqn:Hok; cbn [run step s_stat s_store s_clock]; rewrite ?Hac, Hst2.
+  - assert (C4 : (0 <=? n)%Z = true) by (apply Z.leb_le; exact Hn).
+    rewrite C3, C4. cbn [andb s_stat s_store s_clock]. eexists. split; [reflexivity|].
+    cbn [s_stat s_store]. split; [|discriminate].
+    eapply nth_error_upd_same. exact Hst2.
+  - rewrite C3. eexists. split; [reflexivity|]. cbn [s_stat s_store]. split; [|reflexivity].
+    eapply nth_error_upd_same. exact Hst2.
 Qed.
